@@ -50,6 +50,7 @@ pub enum Kind {
     LeakVar,
     ShadowInner,
     ShadowOuter,
+    ParamTwoTypes,
 }
 
 pub const ALL_KINDS: &[Kind] = &[
@@ -59,7 +60,7 @@ pub const ALL_KINDS: &[Kind] = &[
     Kind::AliasUndefined, Kind::JetUndefined, Kind::JetReserved, Kind::PatDupName, Kind::FnDuplicate, Kind::MainDuplicate,
     Kind::MainRemove, Kind::MainParam, Kind::MainResult, Kind::WitnessDup, Kind::WitnessInFn, Kind::MoveItemDown,
     Kind::FoldWrongFn, Kind::LoopWrongFn, Kind::BadArms, Kind::ParamDupName, Kind::DropFinalExpr, Kind::WrongLiteral,
-    Kind::SwapArgs, Kind::LeakVar, Kind::ShadowInner, Kind::ShadowOuter,
+    Kind::SwapArgs, Kind::LeakVar, Kind::ShadowInner, Kind::ShadowOuter, Kind::ParamTwoTypes,
 ];
 
 impl Kind {
@@ -76,6 +77,7 @@ struct M<'a> {
     applied: bool,
     fn_names: Vec<String>,
     wit_names: Vec<String>,
+    param_names: Vec<String>,
     in_main: bool,
 }
 
@@ -145,10 +147,12 @@ impl<'a> M<'a> {
             }
             Ty::List(a, n) => {
                 if self.hit(Kind::ListBound) {
-                    if *n > 2 && self.t.bool() {
-                        *n /= 2
-                    } else {
-                        *n *= 2
+                    match self.t.index(6) {
+                        0 | 1 => *n = (*n / 2).max(1),
+                        2 | 3 => *n *= 2,
+                        // not a power of two
+                        4 => *n += 1,
+                        _ => *n = *n * 2 - 1,
                     }
                     return;
                 }
@@ -199,6 +203,14 @@ impl<'a> M<'a> {
         if last.is_some() && self.hit(Kind::DropFinalExpr) {
             let e = last.take().unwrap();
             stmts.push(Stmt::Expr(*e));
+            return;
+        }
+        // a second read of a template parameter, usually at another type (a parameter has one type)
+        if self.hit(Kind::ParamTwoTypes) {
+            let name = if self.param_names.is_empty() { "FRESH_PARAM".to_string() } else { self.param_names[self.t.index(self.param_names.len())].clone() };
+            let (ty, _) = shadow_binding(self.t);
+            let at = if stmts.is_empty() { 0 } else { self.t.index(stmts.len() + 1) };
+            stmts.insert(at, Stmt::Let(Pat::Ignore, ty, Expr::Param(name)));
             return;
         }
         // shadowing across scopes: bind, in this block, a name that a nested block binds again
@@ -592,7 +604,15 @@ fn run(p: &Program, kind: Kind, target: usize, t: &mut Tape) -> (Program, usize,
             wit_names.push(n.clone());
         }
     });
-    let mut m = M { kind, target, count: 0, t, applied: false, fn_names, wit_names, in_main: false };
+    let mut param_names = vec![];
+    walk_program(p, &mut |e| {
+        if let Expr::Param(n) = e {
+            if !param_names.contains(n) {
+                param_names.push(n.clone());
+            }
+        }
+    });
+    let mut m = M { kind, target, count: 0, t, applied: false, fn_names, wit_names, param_names, in_main: false };
     m.program(&mut q);
     (q, m.count, m.applied)
 }
